@@ -43,8 +43,8 @@ def nontrivial(res):
 
 # -- "the same endpoint": the identity of the address objects the deduplication table is keyed with ------------------
 # (oracle only; every datagram transport's address class, built the way the transport builds it for a received
-# datagram.  Two datagrams are from the same endpoint iff address and port agree; pairs that differ in the IPv6
-# scope id only are left out here: that question is the known finding `scope-id-merged`.)
+# datagram.  Two datagrams are from the same endpoint iff address and port agree; for pairs that differ in the IPv6
+# scope id only see SCOPE_PAIRS.)
 
 ADDR6 = [("2001:db8::1", 5683, 0, 0), ("2001:db8::1", 5684, 0, 0), ("2001:db8::2", 5683, 0, 0),
          ("::ffff:10.0.0.1", 5683, 0, 0), ("::ffff:10.0.0.1", 61616, 0, 0), ("::ffff:10.0.0.2", 5683, 0, 0),
@@ -54,9 +54,27 @@ ADDR4 = [("10.0.0.1", 5683), ("10.0.0.1", 5684), ("10.0.0.1", 61616), ("10.0.0.2
 ADDRESS_KINDS = {"udp6": ADDR6, "simplesocketserver": ADDR6 + ADDR4}
 
 
+# pairs that differ in the IPv6 scope id only: (a, b, same endpoint?).  The zone is part of a link-local address
+# (fe80::1 on two links are two nodes; the kernel reports the zone of every datagram from there), it is not part of
+# any other address (a zone given with a global address only selects the outgoing interface; datagrams from there come
+# in with zone 0), and an unzoned link-local name stands for whatever zone the other side names.
+SCOPE_PAIRS = [(("fe80::1", 5683, 0, 2), ("fe80::1", 5683, 0, 3), False),
+               (("fe80::1", 5683, 0, 2), ("fe80::1", 5683, 0, 2), True),
+               (("fe80::1", 5683, 0, 0), ("fe80::1", 5683, 0, 3), True),
+               (("ff02::fd", 5683, 0, 2), ("ff02::fd", 5683, 0, 3), False),
+               (("2001:db8::1", 5683, 0, 1), ("2001:db8::1", 5683, 0, 0), True),
+               (("2001:db8::1", 5683, 0, 1), ("2001:db8::1", 5683, 0, 2), True),
+               (("::1", 5683, 0, 1), ("::1", 5683, 0, 0), True),
+               (("fe80::1", 5683, 0, 2), ("fe80::2", 5683, 0, 2), False)]
+
+
 def address_cases():
-    return [{"level": "address", "kind": kind, "a": list(a), "b": list(b)}
-            for kind, addrs in ADDRESS_KINDS.items() for a in addrs for b in addrs if len(a) == len(b)]
+    out = [{"level": "address", "kind": kind, "a": list(a), "b": list(b)}
+           for kind, addrs in ADDRESS_KINDS.items() for a in addrs for b in addrs if len(a) == len(b)]
+    for a, b, same in SCOPE_PAIRS:
+        for x, y in ((a, b), (b, a)):
+            out.append({"level": "address", "kind": "udp6", "a": list(x), "b": list(y), "same": same})
+    return out
 
 
 class _Anything:
@@ -77,7 +95,7 @@ def make_address(kind, sockaddr):
 
 def oracle_address(case):
     A, B = make_address(case["kind"], case["a"]), make_address(case["kind"], case["b"])
-    same = case["a"] == case["b"]
+    same = case.get("same", case["a"] == case["b"])
     try:
         eq, ne, found = (A == B), (A != B), {A: 1}.get(B) == 1
         hash_ok = (not same) or hash(A) == hash(B)
